@@ -260,13 +260,24 @@ def run_case(case):
     res.nontrivial = 1 if seq else 0
     res.states.append(h64(repr((d, pos, order, lim, off, top))))
     lexd = "sqlite" if d == "generic" else d
-    for param in (False, True):
+    first_render = {}
+    for param in (False, True, False, True):
         res.transitions += 1
         try:
             sql, vals = prog.render(o, d, param=param)
         except Exception as e:
             res.violate("C09|%s|render-raises|%s" % (d, type(e).__name__), "rendering raised", program=p, error=str(e))
             return res
+        if param in first_render:
+            # the statement is rendered a second time (inline, parameterised, inline, parameterised): the row-limiting clause
+            # and its values must be where they were
+            if (sql, fp.vrepr(vals)) != first_render[param]:
+                res.violate("C09|%s|%s|second-render-differs" % (d, "setop" if pos.startswith("setop_self") else "query"),
+                            "the row-limiting clause / the value slots change when the same statement is rendered again",
+                            dialect=d, position=pos, calls=seq, first=first_render[param][0], second=sql, values=fp.vrepr(vals))
+                return res
+            continue
+        first_render[param] = (sql, fp.vrepr(vals))
         res.outcomes.append(h64(sql))
         try:
             toks = lex(sql, lexd)
